@@ -7,7 +7,7 @@ import math
 import numpy as np
 from hypothesis import strategies as st
 
-from vf import gens
+from vf import forms, gens
 from vf.core import Result, lib
 
 ID = "C19"
@@ -55,6 +55,8 @@ def fluid_case(draw):
         "salinity2": draw(st.floats(0.5, 25.0)),
         # "all Fluid parameter sets": also the nearly dead oils / dry-gas objects whose Standing bubble point is
         # below atmospheric or negative (Fluid(400, 35, 0.65, 0) is the object the repository's own tests build)
+        # scalar pressures are handed to the methods as Python / numpy scalars of either kind or 0-d arrays
+        "p_form": draw(forms.scalar_form()),
         "low_gor": draw(st.one_of(st.none(), st.none(), st.none(), st.none(), st.floats(0.0, 15.0), st.sampled_from([0, 1, 4, 0.0]))),
     }
 
@@ -163,6 +165,16 @@ def check_case(case) -> Result:
             ("oil_viscosity(scalar)", lambda: [fl.oil_viscosity(float(q)) for q in ps], [O.viscosity_beggs_robinson(T, q, api, sg, gor) for q in ps]),
             ("water_viscosity(scalar)", lambda: [fl.water_viscosity(float(q)) for q in ps], [W.viscosity_water_McCain(T, q, sal) for q in ps]),
         ]
+        form = case.get("p_form", "float")
+        if form not in ("float", "np.float32"):
+            qs = [forms.representable(q, form) for q in ps]
+            qs = [q for q in qs if q >= 15.0]
+            pairs += [
+                (f"oil_FVF(scalar as {form})", lambda: [float(fl.oil_FVF(forms.scalar(q, form))) for q in qs], [O.b_o_Standing(T, q, api, sg, gor) for q in qs]),
+                (f"oil_viscosity(scalar as {form})", lambda: [float(fl.oil_viscosity(forms.scalar(q, form))) for q in qs], [O.viscosity_beggs_robinson(T, q, api, sg, gor) for q in qs]),
+                (f"water_viscosity(scalar as {form})", lambda: [float(fl.water_viscosity(forms.scalar(q, form))) for q in qs], [W.viscosity_water_McCain(T, q, sal) for q in qs]),
+            ]
+            res.labels["scalar_pressure_form"] = form
         for name, call, want in pairs:
             got = lib(f"Fluid.{name}", call)
             _close(res, "C19/fluid-delegation", got, want, 1e-13, f"Fluid({T!r},{api!r},{sg!r},{gor!r},salinity={sal!r}).{name} on {list(ps)} (tpc={tpc!r}, ppc={ppc!r})")
